@@ -143,6 +143,9 @@ var shapes = []shape{
 	transferShape("zero_output", func(t *big.Int) []world.Out {
 		return []world.Out{{To: "B", Amount: "0"}, {To: "A", Amount: t.String()}}
 	}, 1),
+	transferShape("zero_output_0x00", func(t *big.Int) []world.Out { // zero spelled as one zero byte
+		return []world.Out{{To: "B", Raw: []byte{0}}, {To: "A", Amount: t.String()}}
+	}, 1),
 	transferShape("self_split", func(t *big.Int) []world.Out {
 		return []world.Out{{To: "A", Amount: "7"}, {To: "A", Amount: sub(t, 7)}}
 	}, 20),
